@@ -3,10 +3,27 @@
    codec's verdict on a given suffix; every single type's SSZ / JSON decoder verdict), so that the
    model's outcome on the very bytes Go saw can be compared with Go's outcome by vm_compute.
    Nothing here is used by the theorems. *)
-From Coq Require Import List NArith Bool Ascii String.
+From Coq Require Import List NArith ZArith Bool Ascii String Uint63.
 From Charon Require Import Codec.Envelope.
 Import ListNotations.
 Local Open Scope N_scope.
+
+(* Byte strings are shipped as primitive 63-bit integers holding 7 bytes each (little-endian inside a
+   word) plus the byte count -- string / N literals of this size take minutes to elaborate.  The
+   primitives appear only in these evaluation files, never under a theorem of Properties/C14.v. *)
+Record packed := { p_len : N; p_words : list int }.
+
+Fixpoint word_bytes (k : nat) (w : int) : bytes :=
+  match k with
+  | O => []
+  | S k' => Z.to_N (Uint63.to_Z (Uint63.land w 255%uint63)) :: word_bytes k' (Uint63.lsr w 8%uint63)
+  end.
+Fixpoint unpack_words (n : nat) (ws : list int) : bytes :=
+  match ws with
+  | [] => []
+  | w :: r => word_bytes (Nat.min n 7) w ++ unpack_words (n - 7) r
+  end.
+Definition unpack (p : packed) : bytes := unpack_words (N.to_nat (p_len p)) (p_words p).
 
 Definition hexval (a : ascii) : N :=
   let n := N_of_ascii a in if n <? 58 then n - 48 else n - 87.
@@ -134,28 +151,37 @@ Definition reenc (sh : shape) (exp : outcome) (inner : bytes) (inner2 : bytes) :
   end.
 
 Record ecase := {
-  e_id : nat; e_shape : shape; e_bytes : string; e_oracle : oracle;
+  e_id : N; e_shape : shape; e_bytes : packed; e_oracle : oracle;
   e_expect : outcome;        (* what Go did with e_bytes *)
   e_pstart_known : bool;     (* false: the inner value does not re-marshal to a suffix of the input, payload start not compared *)
-  e_inner : string;          (* when Go decoded: inner value re-marshalled by Go *)
-  e_reenc : string           (* when Go decoded: whole value re-marshalled by Go *)
+  e_inner : option packed;   (* when Go decoded: inner value re-marshalled by Go; None = the suffix of the input
+                                from the expected payload start (the harness checked that equality) *)
+  e_reenc : option packed    (* when Go decoded: whole value re-marshalled by Go; None = equal to the input *)
 }.
 
 (* 1 = outcome differs, 2 = re-encoding differs *)
-Definition check_ecase (c : ecase) : list (nat * N) :=
-  let b := hex (e_bytes c) in
+Definition check_ecase (c : ecase) : list (N * N) :=
+  let b := unpack (e_bytes c) in
   let got := run (e_shape c) (e_oracle c) b in
   (if outcome_eqb_k (e_pstart_known c) got (e_expect c) then [] else [(e_id c, 1)]) ++
   match e_expect c with
   | OOk _ _ _ _ | OOkA _ _ _ =>
-      match reenc (e_shape c) (e_expect c) (hex (e_inner c)) [] with
-      | Some r => if bytes_eqb r (hex (e_reenc c)) then [] else [(e_id c, 2)]
+      let inner :=
+        match e_inner c, e_expect c with
+        | Some p, _ => unpack p
+        | None, OOk _ _ _ ps => skipn (N.to_nat ps) b
+        | None, OOkA o0 o1 _ => match slice b (N.to_nat o0) (N.to_nat o1) with Some x => x | None => [] end
+        | None, _ => []
+        end in
+      let want := match e_reenc c with Some p => unpack p | None => b end in
+      match reenc (e_shape c) (e_expect c) inner [] with
+      | Some r => if bytes_eqb r want then [] else [(e_id c, 2)]
       | None => [(e_id c, 2)]
       end
   | _ => []
   end.
 
-Definition ecases_mismatch (cs : list ecase) : list (nat * N) := flat_map check_ecase cs.
+Definition ecases_mismatch (cs : list ecase) : list (N * N) := flat_map check_ecase cs.
 
 (* ------------------------------------------------------------------------------------------- *)
 (* dispatch cases *)
@@ -190,50 +216,63 @@ Definition utype_eqb (a b : utype) : bool :=
   | _, _ => false
   end.
 
-(* oracle entry: (type, pointer implements ssz.Unmarshaler, SSZ decoder accepts, JSON decoder accepts) *)
-Fixpoint lookup_s (l : list (stype * bool * bool * bool)) (t : stype) : option (bool * bool) :=
+(* oracle entry: (type, pointer implements ssz.Unmarshaler, SSZ decoder accepts, JSON decoder accepts,
+   SSZ-decoded value usable, JSON-decoded value usable).  Decoded values are modelled by
+   1 = unusable (MessageRoot / Signature / Clone resp. MarshalJSON / Clone fail or panic), 2 = usable,
+   0 = the oracle has no entry or disagrees with the model's has-SSZ table (never matches Go). *)
+Definition orow (Ty : Type) := (Ty * bool * bool * bool * bool * bool)%type.
+Definition uval (u : bool) : N := if u then 2 else 1.
+Fixpoint lookup_s (l : list (orow stype)) (t : stype) : option (bool * bool * bool * bool) :=
   match l with
   | [] => None
-  | (t', h, s, j) :: r => if stype_eqb t t' then (if Bool.eqb h (s_has_ssz t) then Some (s, j) else None) else lookup_s r t
+  | (t', h, s, j, us, uj) :: r =>
+      if stype_eqb t t' then (if Bool.eqb h (s_has_ssz t) then Some (s, j, us, uj) else None) else lookup_s r t
   end.
-Fixpoint lookup_u (l : list (utype * bool * bool * bool)) (t : utype) : option (bool * bool) :=
+Fixpoint lookup_u (l : list (orow utype)) (t : utype) : option (bool * bool * bool * bool) :=
   match l with
   | [] => None
-  | (t', h, s, j) :: r => if utype_eqb t t' then (if Bool.eqb h (u_has_ssz t) then Some (s, j) else None) else lookup_u r t
+  | (t', h, s, j, us, uj) :: r =>
+      if utype_eqb t t' then (if Bool.eqb h (u_has_ssz t) then Some (s, j, us, uj) else None) else lookup_u r t
   end.
 
-(* value = true: decoded; false inside Some: oracle missing *)
-Definition sdec_o (l : list (stype * bool * bool * bool)) (t : stype) (b : bytes) : option bool :=
+Definition sdec_o (l : list (orow stype)) (t : stype) (b : bytes) : option N :=
   match lookup_s l t with
-  | None => Some false
-  | Some (s, j) =>
-      unmarshal bool (if s_has_ssz t then Some (fun _ => if s then Some true else None) else None)
-                (fun _ => if j then Some true else None) b
+  | None => Some 0
+  | Some (s, j, us, uj) =>
+      unmarshal N (if s_has_ssz t then Some (fun _ => if s then Some (uval us) else None) else None)
+                (fun _ => if j then Some (uval uj) else None) b
   end.
-Definition udec_o (l : list (utype * bool * bool * bool)) (t : utype) (b : bytes) : option bool :=
+Definition udec_o (l : list (orow utype)) (t : utype) (b : bytes) : option N :=
   match lookup_u l t with
-  | None => Some false
-  | Some (s, j) =>
-      unmarshal bool (if u_has_ssz t then Some (fun _ => if s then Some true else None) else None)
-                (fun _ => if j then Some true else None) b
+  | None => Some 0
+  | Some (s, j, us, uj) =>
+      unmarshal N (if u_has_ssz t then Some (fun _ => if s then Some (uval us) else None) else None)
+                (fun _ => if j then Some (uval uj) else None) b
   end.
 
-Record scase := { s_id : nat; s_duty : dutytype; s_prefix : string;
-                  s_oracle : list (stype * bool * bool * bool);
+Record scase := { s_id : N; s_duty : dutytype; s_prefix : packed;
+                  s_oracle : list (orow stype);
                   s_expect : option stype }.               (* Go type returned, None = error *)
-Record ucase := { u_id : nat; u_duty : dutytype; u_prefix : string;
-                  u_oracle : list (utype * bool * bool * bool); u_expect : option utype }.
+Record ucase := { u_id : N; u_duty : dutytype; u_prefix : packed;
+                  u_oracle : list (orow utype); u_expect : option utype }.
 
-Definition check_scase (c : scase) : list nat :=
-  match sdispatch bool (sdec_o (s_oracle c)) (s_duty c) (hex (s_prefix c)), s_expect c with
+(* [val]: the code under test validates decoded values before returning them *)
+Definition check_scase (val : bool) (c : scase) : list N :=
+  let r := sdispatch N (sdec_o (s_oracle c)) (s_duty c) (unpack (s_prefix c)) in
+  let r := if val then validated N (fun v => negb (v =? 1)) r else r in
+  match r, s_expect c with
   | None, None => []
-  | Some (t, true), Some t' => if stype_eqb t t' then [] else [s_id c]
+  | Some (t, 0), _ => [s_id c]
+  | Some (t, _), Some t' => if stype_eqb t t' then [] else [s_id c]
   | _, _ => [s_id c]
   end.
-Definition check_ucase (c : ucase) : list nat :=
-  match udispatch bool (udec_o (u_oracle c)) (u_duty c) (hex (u_prefix c)), u_expect c with
+Definition check_ucase (val : bool) (c : ucase) : list N :=
+  let r := udispatch N (udec_o (u_oracle c)) (u_duty c) (unpack (u_prefix c)) in
+  let r := if val then validated N (fun v => negb (v =? 1)) r else r in
+  match r, u_expect c with
   | None, None => []
-  | Some (t, true), Some t' => if utype_eqb t t' then [] else [u_id c]
+  | Some (t, 0), _ => [u_id c]
+  | Some (t, _), Some t' => if utype_eqb t t' then [] else [u_id c]
   | _, _ => [u_id c]
   end.
 
@@ -249,11 +288,11 @@ Fixpoint bytes_leb (a b : bytes) : bool :=
 
 (* The observed order of map entries in Go's deterministic encoding (list of keys, in wire order) must
    be the model's sorted order. *)
-Record setcase := { t_id : nat; t_keys_inserted : list string; t_keys_wire : list string }.
-Definition check_setcase (c : setcase) : list nat :=
-  let ins := map (fun k => (hex k, @nil N)) (t_keys_inserted c) in
+Record setcase := { t_id : N; t_keys_inserted : list packed; t_keys_wire : list packed }.
+Definition check_setcase (c : setcase) : list N :=
+  let ins := map (fun k => (unpack k, @nil N)) (t_keys_inserted c) in
   let sorted := map fst (sort_entries bytes bytes_leb ins) in
-  let wire := map hex (t_keys_wire c) in
+  let wire := map unpack (t_keys_wire c) in
   if (fix eq (a b : list bytes) : bool :=
         match a, b with [], [] => true | x :: a', y :: b' => bytes_eqb x y && eq a' b' | _, _ => false end) sorted wire
   then [] else [t_id c].
